@@ -7,9 +7,11 @@ from vlib import Infra, log
 
 TIERS = {
     # (model cfgs, generator cfgs, concretisation variants)
-    "quick": (["MV_peer_q.cfg", "MV_self_q.cfg", "MV_k_q.cfg"], ["MV_peer_q_gen.cfg", "MV_self_q_gen.cfg", "MV_k_q_gen.cfg"], [0]),
+    # (model cfgs, generator cfgs, concretisation variants per cfg)
+    "quick": (["MV_peer_q.cfg", "MV_self_q.cfg", "MV_k_q.cfg"], ["MV_peer_q_gen.cfg", "MV_self_q_gen.cfg", "MV_k_q_gen.cfg"],
+              [[0, 1], [0], [0]]),
     "thorough": (["MV_peer_t.cfg", "MV_self_t.cfg", "MV_k_t.cfg"],
-                 ["MV_peer_t_gen.cfg", "MV_self_t_gen.cfg", "MV_k_t_gen.cfg"], [0, 1, 2]),
+                 ["MV_peer_t_gen.cfg", "MV_self_t_gen.cfg", "MV_k_t_gen.cfg"], [[0, 1, 2], [0, 1, 2], [0, 1]]),
 }
 
 
@@ -50,7 +52,7 @@ def view_stage(work, res, tier, prefixes, replay=None):
             n = vlib.generate(work, "MVcfg", gens[i], edges)
             log("generated %d edges from %s" % (n, gens[i]))
             out = []
-            for v in variants:
+            for v in variants[i]:
                 tr = replay_edges(work, binp, edges, v, per)
                 tr["judged"] = judge_chunked(work, tr["trace"], per)
                 out.append(tr)
